@@ -14,6 +14,8 @@ from ..model import AnalysisError, Func, own_nodes, src
 from ..pathsem import feasible, function_paths, resolve_local
 from .. import rx
 
+from .c08 import items_to_ints_func  # noqa: E402
+
 PROPERTY = "C09"
 LEVEL = "exploration"
 EXPLANATION = (
@@ -96,6 +98,12 @@ def selection_table(ctx: Ctx, rep: Report) -> Dict[Tuple[str, str, int], Tuple[s
                     raise AnalysisError(f"PortName.names: {len(feas)} feasible paths for {combo} (expected 1)")
                 ret = resolve_local(feas[0].ret, feas[0].env)
                 tname = _table_name(ret)
+                if tname is not None and ctx.folder.try_const("port_name", tname) is UNKNOWN:
+                    # the table travels through a local (`asa, ios_15, ... = (TCP_..., ...)`; `return asa.copy()`)
+                    from .common import deep_resolve
+
+                    ret = deep_resolve(feas[0].ret, feas[0].env)
+                    tname = _table_name(ret)
                 table = ctx.folder.try_const("port_name", tname) if tname else UNKNOWN
                 if tname is None or not known(table) or not isinstance(table, dict) or not table:
                     rep.violation(
@@ -285,7 +293,7 @@ def run(ctx: Ctx, rep: Report, tier: str) -> None:  # noqa: C901
     # ---------------------------------------------------------------- R09.3 same table for reading and writing
     rep.rule("R09.3")
     pg = ctx.func("Port.line.getter")
-    pi = ctx.func("Port._line__items_to_ints")
+    pi = items_to_ints_func(ctx)
 
     def portname_calls(fn: Func, _seen=None) -> List[ast.Call]:
         """PortName(...) constructions in fn or in the methods it calls on self (a shared helper counts)."""
@@ -308,6 +316,19 @@ def run(ctx: Ctx, rep: Report, tier: str) -> None:  # noqa: C901
                 if g2 is not None:
                     out.extend(portname_calls(g2, _seen))
         return out
+
+    def self_reach(fn: Func, _seen=None) -> List[Func]:
+        """fn and the methods of its class it calls on self, transitively (an extracted per-item helper counts)."""
+        _seen = _seen if _seen is not None else {}
+        if id(fn) in _seen:
+            return []
+        _seen[id(fn)] = fn
+        for n in own_nodes(fn.node):
+            if isinstance(n, ast.Call) and isinstance(n.func, ast.Attribute) and src(n.func.value) == "self" and fn.cls is not None:
+                m = fn.cls.lookup_method(n.func.attr)
+                if m is not None:
+                    self_reach(m, _seen)
+        return list(_seen.values())
 
     def kw(call: ast.Call) -> Dict[str, str]:
         pn_init = ctx.func("PortName.__init__")
@@ -336,7 +357,9 @@ def run(ctx: Ctx, rep: Report, tier: str) -> None:  # noqa: C901
                 )
             else:
                 rep.ok(f"{fn.qualname}: {snippet(c)}", "protocol/platform/version of the Port itself", where=where(fn, c))
-        used = {n.func.attr for n in own_nodes(fn.node) if isinstance(n, ast.Call) and isinstance(n.func, ast.Attribute) and n.func.attr in ("ports", "names") and (ctx.types.expr_type(n.func.value, fn)[:1] == ("cls",) or "port_name" in src(n.func.value).lower())}
+        used = set()
+        for g3 in self_reach(fn):
+            used |= {n.func.attr for n in own_nodes(g3.node) if isinstance(n, ast.Call) and isinstance(n.func, ast.Attribute) and n.func.attr in ("ports", "names") and (ctx.types.expr_type(n.func.value, g3)[:1] == ("cls",) or "port_name" in src(n.func.value).lower())}
         if meth not in used:
             rep.violation(fn.qualname, f"PortName.{meth}()", f"{fn.qualname} no longer reads PortName.{meth}()", where(fn))
         else:
